@@ -20,7 +20,7 @@ RULE = (
     "1-3 well-behaved client tasks (Redis/RabbitMQ: on 1-2 separate connections) run seeded scripts over enqueue(immediate/"
     "delayed) / start-finish consumer(category, topics) / consume / ack / nack / reject / requeue(new payload+params) / sleep, "
     "on 1-2 queues, 2 topics, 3 priorities, <=12 messages with unique ids and payloads; in part of the runs one broker call is "
-    "cancelled at a seeded step offset inside it (thorough: the offset is swept). After every returned call the affected id's "
+    "cancelled at a seeded step offset inside it, aimed at the n-th call of one operation (every 12th network-broker / 40th in-memory scenario of the quick tier sweeps the offset over 0..24, every 5th of the thorough tier over 0..44). After every returned call the affected id's "
     "broker-side place (read from the broker's own storage / the fake server's keyspace, not through repid) is compared with a "
     "reference lifecycle model; at the end all consumers are finished and every id must be in exactly the model's place with the "
     "model's payload and parameters. non-trivial = at least one consume returned and one terminal action ran; distinct = "
@@ -77,6 +77,10 @@ def gen(rng, broker, tier):
     cancel = None
     if rng.random() < 0.5:
         cancel = {"call": rng.randint(1, 40), "offset": rng.randint(0, 25)}
+        if rng.random() < 0.6:
+            # aimed at the n-th call of one operation (the two-step operations are the interesting ones)
+            cancel = {"call": 0, "op": rng.choice(["requeue", "requeue", "requeue", "reject", "ack", "nack", "enqueue"]),
+                      "nth": rng.randint(1, 3), "offset": rng.randint(0, 25)}
     return {"clients": clients, "queues": queues, "cancel": cancel,
             "knobs": {"step_cost": rng.choice([0, 0, 1, "rand"]),
                       "net": {"lat_lo": 50, "lat_hi": rng.choice([200, 3000, 30_000]), "frag_p": rng.choice([0, 0.2])},
@@ -228,6 +232,8 @@ async def _main(sim, sc, out):
             return False
         return p["payload"] == e["payload"] and p["params"] == e["params"]
 
+    per_op: dict = {}
+
     async def call(client, opname, id_, coro_fn):
         """run one top-level broker call as its own task (so that it can be cancelled)"""
         call_counter[0] += 1
@@ -235,7 +241,9 @@ async def _main(sim, sc, out):
         if id_ is not None:
             in_flight_ids[id_] = in_flight_ids.get(id_, 0) + 1
         t = asyncio.ensure_future(coro_fn())
-        if cancel and cancel["call"] == n and not (broker == "rabbit" and opname in ("start", "finish")):
+        per_op[opname] = per_op.get(opname, 0) + 1
+        hit = cancel and (cancel["call"] == n or (cancel.get("op") == opname and cancel.get("nth") == per_op[opname]))
+        if hit and not (broker == "rabbit" and opname in ("start", "finish")):
             k = sim.loop.step + 1 + cancel["offset"]
 
             def do_cancel():
@@ -332,8 +340,21 @@ async def _main(sim, sc, out):
                 if e is None:
                     continue
                 if e.get("uncertain"):
-                    # being delivered proves that the interrupted call did take effect
-                    e = dict(e["uncertain"][1])
+                    # being delivered proves that the interrupted call did take effect - or, if the holder's consumer has
+                    # been finished since, that it did not and the message was returned by that shutdown
+                    old_u, new_u = e["uncertain"]
+                    cands_u = [dict(new_u)]
+                    if old_u.get("state") == "held" and (old_u.get("via") in finishing or old_u.get("via") in finished_consumers):
+                        cands_u.append(dict(old_u, state=old_u["prev_state"], holder=None))
+
+                    def _fits(c_, cat_=sop["cat"]):
+                        return (cat_ == "DEAD" and c_["state"] == "dead") or (cat_ == "DELAYED" and c_["state"] == "delayed") or (
+                            cat_ == "NORMAL" and (c_["state"] == "waiting" or (
+                                c_["state"] == "delayed" and c_["due_us"] <= sim.clock.us + 1000)))
+
+                    snap_u = params_snapshot(params)
+                    e = next((c_ for c_ in cands_u if _fits(c_) and c_["payload"] == payload and c_["params"] == snap_u),
+                             next((c_ for c_ in cands_u if _fits(c_)), cands_u[0]))
                     e.pop("uncertain", None)
                     model[key.id_] = e
                 if e["state"] == "held" and e.get("pending_new") is not None and in_flight_ids.get(key.id_, 0) > 0:
@@ -512,16 +533,19 @@ def shrink_candidates(sc):
 
 
 def task(spec):
-    if spec["tier"] == "thorough" and spec["idx"] % 5 == 0:
-        # sweep the cancel offset over a whole call for this scenario
+    every = 5 if spec["tier"] == "thorough" else (40 if spec["broker"] == "mem" else 12)
+    if spec["idx"] % every == 3:
+        # sweep the cancel offset over a whole call for this scenario: every step of the n-th call of one operation
         run_seed = kernel.derive_seed(spec["seed"], spec["pid"], spec["broker"], spec["idx"])
         rng = random.Random(kernel.derive_seed(run_seed, "workload"))
         sc = gen(rng, spec["broker"], spec["tier"])
         sc.update({"seed": run_seed, "broker": spec["broker"], "property": spec["pid"]})
-        if not sc.get("cancel"):
-            sc["cancel"] = {"call": rng.randint(1, 30), "offset": 0}
+        present = sorted({o["op"] for c in sc["clients"] for o in c["ops"]} & {"requeue", "reject", "ack", "nack", "enqueue"})
+        # the two-step operation (ack + enqueue on RabbitMQ, remove + add elsewhere) gets most of the sweeps
+        op = "requeue" if "requeue" in present and rng.random() < 0.7 else rng.choice(present or ["enqueue"])
+        sc["cancel"] = {"call": 0, "op": op, "nth": rng.randint(1, 2), "offset": 0}
         outs = []
-        for off in range(0, 45):
+        for off in range(0, 45 if spec["tier"] == "thorough" else 25):
             s2 = copy.deepcopy(sc)
             s2["cancel"]["offset"] = off
             outs.append(run(s2))
